@@ -30,7 +30,9 @@ ASSUMPTIONS = [
 ANGLES = [0.0, 1e-8, 1e-4, 1.0, np.pi - 1e-3, np.pi - 1e-6, np.pi]
 AXES_ = [(1.0, 0.0, 0.0), (1 / 3, 2 / 3, -2 / 3)]
 POSSETS = {"zero": [0.0, 0.0, 0.0], "small": [1e-3, -1e-3, 0.0], "frac": [123.456, -7.125, 0.5], "large": [1e4 + 0.25, 2048.0, -3333.75]}
-PATHS = ["dataframe", "parquet", "csv:None", "csv:2", "csv:4", "csv:6", "csv:8", "file:.csv", "file:.parquet", "file:.pq", "file:.txt", "file:"]
+PATHS = ["dataframe", "parquet", "csv:None", "csv:2", "csv:4", "csv:6", "csv:8", "file:.csv", "file:.parquet", "file:.pq", "file:.txt", "file:",
+         # file names with more dots than the one of the suffix, an upper-case suffix (not a Parquet suffix: text), a Path object
+         "file:.v2.parquet", "file:_1.5nm.pq", "file:.parquet.csv", "file:.PQ", "file:.pq.bak", "pathobj:.parquet"]
 
 
 def AXES(tier):
@@ -149,6 +151,7 @@ def run_case(case):
     try:
         prec = None
         exact = True
+        want_parquet = False
         if kind == "dataframe":
             df = m.to_dataframe()
             cols = df.columns
@@ -169,11 +172,15 @@ def run_case(case):
         else:
             suffix = path.split(":")[1]
             f = os.path.join(tmp, "mole" + suffix)
+            if kind == "pathobj":
+                from pathlib import Path
+
+                f = Path(f)
             m.to_file(f)
             with open(f, "rb") as fh:
                 magic = fh.read(4)
             is_parquet = magic == b"PAR1"
-            want_parquet = suffix in (".parquet", ".pq")
+            want_parquet = os.path.splitext(str(f))[1] in (".parquet", ".pq")  # the documented rule: the (last) suffix decides
             if is_parquet != want_parquet:
                 viol.append((sig("suffix-dispatch"), f"suffix {suffix!r} wrote a {'parquet' if is_parquet else 'text'} file"))
             cols = (pl.read_parquet(f) if is_parquet else pl.read_csv(f)).columns
@@ -203,7 +210,7 @@ def run_case(case):
                     for c in f1.columns:
                         a, b = f1[c].to_list(), f2[c].to_list()
                         same_dtype = f1[c].dtype == f2[c].dtype
-                        if kind in ("dataframe", "parquet") or path in ("file:.parquet", "file:.pq"):
+                        if kind in ("dataframe", "parquet") or (kind in ("file", "pathobj") and want_parquet):
                             if a != b or not same_dtype:
                                 viol.append((sig("features"), f"column {c}: {a} ({f1[c].dtype}) -> {b} ({f2[c].dtype})"))
                         else:
